@@ -200,7 +200,7 @@ def run(ctx):
                 "integer |p|, |M p| (non-trivial = M not orthogonal and expansion with a reduced (l < n) or l >= 2 term); "
                 "inversion: leading orders 0..2, Nmax + n0 in 0..2, scalar/1x1/2x2/3x3 (non-trivial = at least one "
                 "series term beyond the leading one; 2x2/3x3 leading matrices never commute with the tails)")
-    nrot, ninv = (36, 60) if quick else (1200, 1600)
+    nrot, ninv = (36, 60) if quick else (2500, 3500)
     cases, meta = [], []
     for i in range(nrot):
         dim = 3 if i % 2 == 0 else 2
